@@ -20,8 +20,9 @@ archiver was given ("captured at write time" — calling `archive()` a second ti
 Oracle (round trip).  The file is read back with Python's csv module using the dialect the archiver module itself
 declares (`delimiter`, `quoting`, `escapechar`, `encoding`).  For every run:
     rows:count            number of data rows == number of archive passes made during on_tick
-    columns:<chars>       every data row has len(row) == len(header)
-    cell:<chars>          cells 1.. of data row k == the non-None archive() strings of pass k, in order
+    columns:*             every data row has len(row) == len(header)  (row-split:<char class> | header-vs-archived-tags)
+    cell:<char class>     cells 1.. of data row k == the non-None archive() strings of pass k, in order
+    readback:<Type>       the file can be decoded/parsed at all with the declared encoding and dialect
     archiver-raises:<ev>  on_start/on_tick/on_stop must not raise for in-domain input
     runlog-file:*         same two checks for the run-log file written at on_stop (3 columns, command names read back)
 Not judged (statement silent): the Datetime cell, the header labels (classified as header-labels:ok/differ), which
@@ -314,6 +315,18 @@ def _chars(A, cells) -> str:
     return "+".join(has) if has else "plain"
 
 
+def _dominant(A, cells) -> str:
+    """single root-cause label for signatures: the dialect-relevant character class present in the cells"""
+    joined = "".join(cells)
+    if A.escapechar is not None and A.escapechar in joined:
+        return "escape"
+    if A.delimiter in joined:
+        return "delimiter"
+    if '"' in joined:
+        return "quote"
+    return "plain"
+
+
 def _read(A, path):
     with open(path, "r", newline="", encoding=A.encoding) as f:
         return list(csv.reader(f, delimiter=A.delimiter, quoting=A.quoting, escapechar=A.escapechar))
@@ -324,7 +337,11 @@ def _compare_run(A, run, case, out, classes):
     if not os.path.isfile(run["path"]):
         out.append(Violation("file:missing", "on_start completed but the archive file %s does not exist" % os.path.basename(run["path"]), case))
         return False
-    rows = _read(A, run["path"])
+    try:
+        rows = _read(A, run["path"])
+    except (UnicodeError, csv.Error) as e:   # the archive cannot be read back with the declared encoding/dialect
+        out.append(Violation("readback:" + type(e).__name__, "reading the archive back failed: %s: %s" % (type(e).__name__, e), case))
+        return False
     expected = [[v for _, v in p if v is not None] for p in run["passes"]]
     nontrivial = False
     if not rows:
@@ -345,13 +362,16 @@ def _compare_run(A, run, case, out, classes):
                 if c != "apostrophe":
                     nontrivial = True
         if len(row) != len(header):
-            out.append(Violation("columns:" + ch, "data row %d has %d columns, header has %d; archived cells %r, read back %r"
-                                 % (k, len(row), len(header), exp, row[1:]), case))
+            # root cause: either the row was split/merged on the way (cell count changed) or the header was built for
+            # another set of tags than the rows
+            sig = "columns:header-vs-archived-tags" if len(row) == len(exp) + 1 else "columns:row-split:" + _dominant(A, exp)
+            out.append(Violation(sig, "data row %d has %d columns, header has %d (%d values were archived); archived cells %r, read back %r"
+                                 % (k, len(row), len(header), len(exp), exp, row[1:]), case))
             continue
         if row[1:] != exp:
             bad = [j for j in range(min(len(exp), len(row) - 1)) if row[1 + j] != exp[j]]
             j = bad[0] if bad else 0
-            out.append(Violation("cell:" + _chars(A, [exp[j]] if exp else []),
+            out.append(Violation("cell:" + _dominant(A, [exp[j]] if exp else []),
                                  "data row %d: archived %r but read back %r" % (k, exp[j] if exp else None, row[1 + j] if len(row) > 1 + j else None), case))
     classes.add("rows:" + ("0" if not data else "1" if len(data) == 1 else "2-5" if len(data) <= 5 else ">5"))
     return nontrivial and bool(data)
@@ -361,7 +381,11 @@ def _compare_runlog(A, path, names, case, out, classes):
     if not os.path.isfile(path):
         out.append(Violation("runlog-file:missing", "on_stop completed but no run-log file was written", case))
         return
-    rows = _read(A, path)
+    try:
+        rows = _read(A, path)
+    except (UnicodeError, csv.Error) as e:
+        out.append(Violation("runlog-file:readback:" + type(e).__name__, "reading the run-log file back failed: %s: %s" % (type(e).__name__, e), case))
+        return
     if not rows:
         out.append(Violation("runlog-file:no-header", "run-log file is empty", case))
         return
@@ -372,11 +396,12 @@ def _compare_runlog(A, path, names, case, out, classes):
     for k, (row, name) in enumerate(zip(data, names)):
         ch = _chars(A, [name])
         if ch != "plain":
-            classes.add("runlog-name-has:" + ch)
+            for c in ch.split("+"):
+                classes.add("runlog-name-has:" + c)
         if len(row) != len(header):
-            out.append(Violation("runlog-file:columns:" + ch, "run-log row %d has %d columns, header %d; name %r" % (k, len(row), len(header), name), case))
+            out.append(Violation("runlog-file:columns:" + _dominant(A, [name]), "run-log row %d has %d columns, header %d; name %r" % (k, len(row), len(header), name), case))
         elif row[0] != name:
-            out.append(Violation("runlog-file:cell:" + ch, "run-log row %d: name %r read back as %r" % (k, name, row[0]), case))
+            out.append(Violation("runlog-file:cell:" + _dominant(A, [name]), "run-log row %d: name %r read back as %r" % (k, name, row[0]), case))
 
 
 # ---- stand-alone driver -------------------------------------------------------------------------------
